@@ -477,6 +477,14 @@ func c10(c *core.Ctx) {
 		}
 		c.EndRule()
 	}
+
+	// ---------------------------------------------------------------- R5, R6 (shared)
+	// "exposes the caller's outgoing metadata as incoming metadata": the per-RPC credentials step joins, never
+	// replaces, the caller's own entries (C13/R2); "the caller's deadline and cancellation": the handler's context
+	// descends from the context given to THIS call (C04/R3)
+	c.Borrow("C13", map[string]string{"R2": "R5"}, c13)
+	c.Borrow("C04", map[string]string{"R3": "R6"}, c04)
+
 }
 
 func withValueCallOf(v ssa.Value) *ssa.Call { return nil }
